@@ -509,6 +509,10 @@ class Component(CaselessDict):
         """Returns property as content line.
         """
         params = getattr(value, 'params', Parameters())
+        if isinstance(value, bytes):
+            # the BEGIN/END values of property_items() are already encoded;
+            # from_parts would escape them as TEXT a second time
+            value = types_factory['inline'](value)
         return Contentline.from_parts(name, params, value, sorted=sorted)
 
     def content_lines(self, sorted=True):
